@@ -21,7 +21,7 @@ var quotedRe = regexp.MustCompile(`"(\\.|[^"\\])*"`)
 func canonQuotes(s string) string { return quotedRe.ReplaceAllString(s, `"_"`) }
 
 var knownIncludeTails = map[string]bool{
-	"does not exist": true, "is a directory": true, "cannot not start with `/`": true,
+	"does not exist": true, "is a directory": true, "cannot be empty": true, "cannot not start with `/`": true,
 	"cannot contain `..` or `.`": true, "directories must be separated by slashes `/`": true,
 }
 
